@@ -69,6 +69,8 @@ FAIL = _Fail()
 #   ["seq", [t..]] ["choice", [t..]] ["many", t, lower] ["until", t, pred] ["opt", t, default]
 #   ["kl", a, b] ["kr", a, b] ["fb", a, b] ["nfb", a, b]
 #   ["map", t, tag, reject] ["lift", [t..], tag, reject] ["wrap", t] ["rec", body]
+#   ["withindent", t]   WithIndent: pushes the current column for the duration of t (also when t fails)
+#   ["hang", chars]     HangingString(chars): reads the indentation stack; never fails
 
 def nullable(t):
     """may succeed without consuming (conservative: ref counts as nullable)"""
@@ -79,8 +81,10 @@ def nullable(t):
         return t[2] == 0
     if k == "lit":
         return len(t[1]) == 0
-    if k in ("eof", "opt", "until", "ref"):
+    if k in ("eof", "opt", "until", "ref", "hang"):
         return True
+    if k == "withindent":
+        return nullable(t[1])
     if k in ("seq", "lift"):
         return all(nullable(c) for c in t[1])
     if k == "choice":
@@ -99,8 +103,10 @@ def leftreach(t):
     k = t[0]
     if k == "ref":
         return True
-    if k in ("char", "inset", "any", "string", "lit", "eof"):
+    if k in ("char", "inset", "any", "string", "lit", "eof", "hang"):
         return False
+    if k == "withindent":
+        return leftreach(t[1])
     if k in ("seq", "lift"):
         for c in t[1]:
             if leftreach(c):
@@ -125,8 +131,10 @@ def normalise(t, in_rec=False, guard="a"):
     """Put a generated term into the property's domain *by construction*: repetition bodies consume,
     recursion is guarded, refs only occur inside a rec.  Idempotent."""
     k = t[0]
-    if k in ("char", "inset", "string", "lit", "any", "eof"):
+    if k in ("char", "inset", "string", "lit", "any", "eof", "hang"):
         return list(t)
+    if k == "withindent":
+        return [k, normalise(t[1], in_rec, guard)]
     if k == "ref":
         return ["ref"] if in_rec else ["char", guard]
     if k in ("seq", "choice"):
@@ -163,8 +171,10 @@ def effective(t, mode):
     """the term the built parser object *means*: in operator mode `x + y` accumulates onto x when x is
     already a Sequence (documented), which flattens the value list"""
     k = t[0]
-    if k in ("char", "inset", "string", "lit", "any", "eof", "ref"):
+    if k in ("char", "inset", "string", "lit", "any", "eof", "ref", "hang"):
         return t
+    if k == "withindent":
+        return [k, effective(t[1], mode)]
     if k in ("seq", "choice"):
         ch = [effective(c, mode) for c in t[1]]
         if mode == "ops" and len(ch) >= 2 and ch[0][0] == k:
@@ -251,6 +261,10 @@ def build(P, t, mode, fwd=None):
         return r
     if k == "wrap":
         return P.Wrapper(build(P, t[1], mode, fwd))
+    if k == "withindent":
+        return P.WithIndent(build(P, t[1], mode, fwd))
+    if k == "hang":
+        return P.HangingString(t[1])
     if k == "rec":
         f = P.Forward()
         body = build(P, t[1], mode, f)
@@ -264,6 +278,8 @@ class Trace(object):
         self.backtracked = False   # a sub-term failed after input had been consumed by an earlier part
         self.rejected = False      # a Map/Lift function raised Backtrack
         self.recursed = False      # a Forward reference was followed
+        self.indents = []          # indentation stack (WithIndent / HangingString)
+        self.hang_read = False     # a HangingString consulted a non-empty indentation stack
 
 
 def ev(t, s, pos, env, tr):
@@ -383,6 +399,23 @@ def ev(t, s, pos, env, tr):
         return (r[0], ["m", t[2], r[1]])
     if k == "wrap":
         return ev(t[1], s, pos, env, tr)
+    if k == "withindent":
+        # no whitespace in the alphabet: the column is the position; the entry lives exactly as long as
+        # the wrapped term is being matched, whether it succeeds or fails
+        tr.indents.append(pos)
+        try:
+            return ev(t[1], s, pos, env, tr)
+        finally:
+            tr.indents.pop()
+    if k == "hang":
+        # one line, no continuation lines in this alphabet: the rest of the input if it is made of the
+        # given characters and lies right of the innermost indentation; otherwise the empty string
+        if not tr.indents:
+            return (pos, "")
+        tr.hang_read = True
+        if pos > tr.indents[-1] and pos < len(s) and all(ch in t[1] for ch in s[pos:]):
+            return (len(s), s[pos:])
+        return (pos, "")
     raise ValueError(k)
 
 
@@ -416,7 +449,7 @@ def _kinds(t, out, under=False, flags=None):
 
 
 _KINDS = set(["char", "inset", "string", "lit", "any", "eof", "ref", "seq", "choice", "many", "until", "opt",
-              "kl", "kr", "fb", "nfb", "map", "lift", "wrap", "rec"])
+              "kl", "kr", "fb", "nfb", "map", "lift", "wrap", "rec", "withindent", "hang"])
 
 
 def _all_inputs(alpha, maxlen):
@@ -498,6 +531,7 @@ def _leaf():
                   st.one_of(st.none(), st.integers(0, 3))).map(list),
         st.just(["any"]), st.just(["eof"]), st.just(["ref"]),
         st.tuples(st.just("char"), st.sampled_from(_AB)).map(list),
+        st.tuples(st.just("hang"), st.sampled_from(["a", "ab", "abc", "bc"])).map(list),
     )
 
 
@@ -515,6 +549,10 @@ def _ext(ch):
         st.tuples(st.just("lift"), st.lists(ch, min_size=1, max_size=3), st.integers(0, 2),
                   st.lists(st.lists(_rejectable, min_size=1, max_size=2), max_size=3)).map(list),
         st.tuples(st.just("wrap"), ch).map(list),
+        st.tuples(st.just("withindent"), ch).map(list),
+        # an indentation scope whose first alternative (itself a scope) fails before a HangingString reads it
+        st.tuples(ch, ch, st.sampled_from(["a", "ab", "abc"])).map(
+            lambda p: ["withindent", ["seq", [p[0], ["choice", [["withindent", p[1]], ["hang", p[2]]]]]]]),
         st.tuples(st.just("rec"), ch).map(list),
         # guarded recursion that really recurses:  R <- x R y / z   and   R <- x R?
         st.tuples(ch, ch, ch).map(lambda p: ["rec", ["choice", [["seq", [p[0], ["ref"], p[1]]], p[2]]]]),
